@@ -137,6 +137,32 @@ def _freeze(v):
 
 
 _SCHEMA_CACHE: dict[str, dict[str, int]] = {}
+_SCHEMA_OBJ_CACHE: dict[str, Optional[dict[str, Any]]] = {}
+
+
+def schema_object_defaults(class_name: str) -> Optional[dict[str, Any]]:
+  """Field -> default of a generated object-API class (TensorT, OperatorT ...),
+  read from the parameter list of its __init__ in the installed schema text.
+  None when the class does not exist."""
+  if class_name in _SCHEMA_OBJ_CACHE:
+    return _SCHEMA_OBJ_CACHE[class_name]
+  path = index.find_site_packages_file('ai_edge_litert/schema_py_generated.py')
+  out = None
+  if path is not None and re.fullmatch(r'[A-Za-z0-9_]+T', class_name):
+    with open(path, 'r', encoding='utf-8') as f:
+      text = f.read()
+    m = re.search(rf'^class {class_name}\(object\):\n(?:\s*#[^\n]*\n|\s*\n)*\s+def __init__\(\s*self,(.*?)\):', text, re.M | re.S)
+    if m:
+      out = {}
+      for part in m.group(1).split(','):
+        if '=' in part:
+          k, v = part.split('=', 1)
+          try:
+            out[k.strip()] = ast.literal_eval(v.strip())
+          except (ValueError, SyntaxError):
+            out[k.strip()] = None
+  _SCHEMA_OBJ_CACHE[class_name] = out
+  return out
 
 
 def schema_enum(class_name: str) -> dict[str, int]:
